@@ -75,6 +75,30 @@ Proof.
     + split; discriminate.
 Qed.
 
+(* the AS path filter looks at the whole path, however it is cut into segments: it matches
+   iff every segment is an AS_SEQUENCE and their concatenation is the wanted list *)
+Lemma rq_hops_seqs ls : rq_hops (map SegSeq ls) = map HAsn (concat ls).
+Proof.
+  unfold rq_hops. induction ls as [|l ls IH]; [reflexivity|].
+  cbn [map flat_map concat]. rewrite IH, map_app. reflexivity.
+Qed.
+
+Lemma rq_match_as_path_segments segs : forall wanted,
+  rq_match_as_path (rq_hops segs) wanted = true <-> exists ls, segs = map SegSeq ls /\ concat ls = wanted.
+Proof.
+  intros wanted. rewrite rq_match_as_path_spec. split.
+  - revert wanted. induction segs as [|sg segs IH]; intros wanted H.
+    + exists []. destruct wanted; [split; reflexivity|discriminate].
+    + destruct sg as [l|]; unfold rq_hops in H; cbn [flat_map] in H; fold (rq_hops segs) in H.
+      * symmetry in H. apply map_eq_app in H as (w1 & w2 & -> & H1 & H2).
+        symmetry in H2. apply IH in H2 as (ls & -> & <-).
+        exists (l :: ls). cbn [map concat]. split; [reflexivity|]. f_equal.
+        clear -H1. revert l H1. induction w1 as [|a w1 IHw]; intros [|b l] H1; try discriminate; [reflexivity|].
+        cbn [map] in H1. injection H1 as -> H1. f_equal. apply IHw. exact H1.
+      * destruct wanted; discriminate.
+  - intros (ls & -> & <-). apply rq_hops_seqs.
+Qed.
+
 (* ---- the community filter *)
 Lemma rq_ckind_eqb_spec a b : rq_ckind_eqb a b = true <-> a = b.
 Proof. destruct a, b; cbn; split; congruence. Qed.
